@@ -1,6 +1,7 @@
 // sevdrive: replays specification-generated cases on the real library and
 // records one observation event per case.
 //   sevdrive <cases.ndjson> <events.ndjson>
+#include <sys/resource.h>
 #include "drv.h"
 #include <symengine/basic.h>
 #include <csignal>
@@ -58,6 +59,12 @@ int main(int argc, char **argv)
     if (argc < 3) {
         fprintf(stderr, "usage: sevdrive cases.ndjson events.ndjson\n");
         return 2;
+    }
+    // optional cap on the address space (MB): attacker-controlled sizes then fail fast with bad_alloc
+    if (const char *lim = getenv("SEV_AS_LIMIT_MB")) {
+        struct rlimit rl;
+        rl.rlim_cur = rl.rlim_max = (rlim_t)atol(lim) * 1024 * 1024;
+        setrlimit(RLIMIT_AS, &rl);
     }
     std::ifstream in(argv[1]);
     if (!in) {
